@@ -153,22 +153,24 @@ structure Attr where
     `XMLResource.get_xmlns(elem)` returns; `[]` for `None`) -/
 inductive Node where
   | mk (id decl : Nat) (name : String) (attrs : List Attr) (ety : Option Ty) (text : String)
+       (ck : Nat)      -- declared type of the element CONTENT: 1 xs:ID, 2 xs:IDREF, 3 xs:IDREFS, 0 none of them
        (xmlns : List (String × String)) (kids : List Node)
   deriving Repr, Inhabited
 
-def Node.id : Node → Nat | .mk i _ _ _ _ _ _ _ => i
-def Node.decl : Node → Nat | .mk _ d _ _ _ _ _ _ => d
-def Node.name : Node → String | .mk _ _ n _ _ _ _ _ => n
-def Node.attrs : Node → List Attr | .mk _ _ _ a _ _ _ _ => a
-def Node.ety : Node → Option Ty | .mk _ _ _ _ t _ _ _ => t
-def Node.text : Node → String | .mk _ _ _ _ _ t _ _ => t
-def Node.xmlns : Node → List (String × String) | .mk _ _ _ _ _ _ x _ => x
-def Node.kids : Node → List Node | .mk _ _ _ _ _ _ _ k => k
+def Node.id : Node → Nat | .mk i _ _ _ _ _ _ _ _ => i
+def Node.decl : Node → Nat | .mk _ d _ _ _ _ _ _ _ => d
+def Node.name : Node → String | .mk _ _ n _ _ _ _ _ _ => n
+def Node.attrs : Node → List Attr | .mk _ _ _ a _ _ _ _ _ => a
+def Node.ety : Node → Option Ty | .mk _ _ _ _ t _ _ _ _ => t
+def Node.text : Node → String | .mk _ _ _ _ _ t _ _ _ => t
+def Node.ck : Node → Nat | .mk _ _ _ _ _ _ c _ _ => c
+def Node.xmlns : Node → List (String × String) | .mk _ _ _ _ _ _ _ x _ => x
+def Node.kids : Node → List Node | .mk _ _ _ _ _ _ _ _ k => k
 
 mutual
 /-- descendant-or-self, document order -/
 def Node.dos : Node → List Node
-  | .mk i d n a t x ns kids => .mk i d n a t x ns kids :: dosList kids
+  | .mk i d n a t x c ns kids => .mk i d n a t x c ns kids :: dosList kids
 def dosList : List Node → List Node
   | [] => []
   | k :: ks => k.dos ++ dosList ks
@@ -297,7 +299,7 @@ mutual
     `collect_key_fields` reads the map.  Output: (element, map read at its collect) in the order
     of the collects, and the state left behind. -/
 def Node.nsWalk (level : Nat) : Node → NsSt → List (Nat × NsMap) × NsSt
-  | .mk i _ _ _ _ _ xm kids, st =>
+  | .mk i _ _ _ _ _ _ xm kids, st =>
     match nsWalkList (level + 1) kids st with
     | (out, st1) =>
       let st2 := setCtx i level xm st1              -- elements.py:833
@@ -319,7 +321,7 @@ mutual
 /-- S: the namespace declarations in scope of every element: its own declarations over those in
     scope of its parent (Namespaces in XML §6.1) -/
 def Node.scopes (m : NsMap) : Node → List (Nat × NsMap)
-  | .mk i _ _ _ _ _ xm kids => scopesList (nsUpdate m xm) kids ++ [(i, nsUpdate m xm)]
+  | .mk i _ _ _ _ _ _ xm kids => scopesList (nsUpdate m xm) kids ++ [(i, nsUpdate m xm)]
 def scopesList (m : NsMap) : List Node → List (Nat × NsMap)
   | [] => []
   | k :: ks => k.scopes m ++ scopesList m ks
@@ -562,7 +564,7 @@ def Schema.con? (sch : Schema) (c : Nat) : Option Con := sch.cons.find? (·.id =
 mutual
 /-- the order in which `XsdElement.raw_decode` works on a document: enter, content, collect, leave -/
 def Node.events (sch : Schema) : Node → List Ev
-  | .mk i d _ _ _ _ _ kids =>
+  | .mk i d _ _ _ _ _ _ kids =>
     .enter i (sch.consOf d) :: (eventsList sch kids ++
       [.collectOpen i, .leave i (sch.consOf d)])
 def eventsList (sch : Schema) : List Node → List Ev
@@ -740,7 +742,7 @@ def fieldNs (sch : Schema) (root : Node) : List Nat :=
 mutual
 /-- sibling elements are distinct objects (`context.obj is obj` of the stack discipline) -/
 def Node.sibOk : Node → Bool
-  | .mk _ _ _ _ _ _ _ kids => decide ((kids.map Node.id).Nodup) && sibOkList kids
+  | .mk _ _ _ _ _ _ _ _ kids => decide ((kids.map Node.id).Nodup) && sibOkList kids
 def sibOkList : List Node → Bool
   | [] => true
   | k :: ks => k.sibOk && sibOkList ks
@@ -771,13 +773,68 @@ def idStep (st : IdSt) : IdEv → IdSt
   | .id v => if st.defd.contains v then { st with errs := .dup v :: st.errs }
              else { st with defd := v :: st.defd }
 
-/-- ID / IDREF attributes in the order the validator meets them (attributes of an element are
-    decoded before its content) -/
-def idEvents (root : Node) : List IdEv :=
-  root.dos.flatMap fun n => n.attrs.filterMap fun a =>
-    if a.idk = 1 then some (.id (String.ofList (strip a.lex.toList)))
-    else if a.idk = 2 then some (.idref (String.ofList (strip a.lex.toList)))
-    else none
+/-- an ID / IDREF occurrence as the walk meets it; an ID comes with the element it is bound to -/
+inductive BEv where
+  | id (v : String) (binder : Nat)
+  | idref (v : String)
+  deriving DecidableEq, Repr, Inhabited
+
+def tokensAux : List Char → List Char → List String
+  | [], cur => if cur.isEmpty then [] else [String.ofList cur.reverse]
+  | c :: r, cur =>
+    if isWs c then (if cur.isEmpty then tokensAux r [] else String.ofList cur.reverse :: tokensAux r [])
+    else tokensAux r (c :: cur)
+/-- the items of a list-typed value (xs:IDREFS) -/
+def tokens (l : List Char) : List String := tokensAux l []
+
+/-- the occurrences one attribute / element content of kind `k` contributes
+    (1 xs:ID, 2 xs:IDREF, 3 xs:IDREFS: one reference per item, 4 xs:ID as the simple content of a
+    complex type) -/
+def occEvents (k : Nat) (lex : String) (b : Nat) : List BEv :=
+  if k = 1 || k = 4 then [.id (String.ofList (strip lex.toList)) b]
+  else if k = 2 then [.idref (String.ofList (strip lex.toList))]
+  else if k = 3 then (tokens lex.toList).map .idref
+  else []
+
+mutual
+/-- ID / IDREF occurrences in the order the validator meets them: the attributes of an element
+    (decoded first, `context.level` raised by one around them: elements.py:734-736), then its own
+    simple content, then its children.
+    * `v11`: XSD 1.1 keeps one `id_list` per complex element (elements.py:725-728, 862), shared by
+      its attributes and its simple-typed children: the content of a simple-typed ID element is bound
+      to the PARENT; in XSD 1.0 every occurrence has its own binder (any repetition is a duplicate).
+    * `rootReg = false` is the current tree: simple content is decoded WITHOUT raising the level, so an
+      ID that is the content of the element the validation starts from meets `elif context.level:`
+      (simple_types.py:767) at level 0 and is not recorded (finding C08-F9). -/
+def Node.idEv (v11 rootReg top : Bool) (parent : Nat) : Node → List BEv
+  | .mk i _ _ attrs _ text ck _ kids =>
+    attrs.flatMap (fun a => occEvents a.idk a.lex i) ++
+    (if top && (ck = 1 || ck = 4) && !rootReg then []
+     else occEvents ck text (if v11 && !top && ck = 1 then parent else i)) ++
+    idEvList v11 i kids
+def idEvList (v11 : Bool) (parent : Nat) : List Node → List BEv
+  | [] => []
+  | k :: ks => k.idEv v11 true false parent ++ idEvList v11 parent ks
+end
+
+def lookB (v : String) : List (String × Nat) → Option Nat
+  | [] => none
+  | (w, b) :: r => if w = v then some b else lookB v r
+
+/-- simple_types.py:768-783 with a non-`None` `id_list`: a repetition of an ID inside the element
+    that first defined it (`obj in context.id_list`) is silently accepted — no error, no state
+    change — so it can be dropped; every other occurrence goes to the counter `idStep` -/
+def collapseAux (seen : List (String × Nat)) : List BEv → List IdEv
+  | [] => []
+  | .idref v :: r => .idref v :: collapseAux seen r
+  | .id v b :: r =>
+    match lookB v seen with
+    | some b0 => if b0 = b then collapseAux seen r else .id v :: collapseAux seen r
+    | none => .id v :: collapseAux ((v, b) :: seen) r
+
+def collapse (evs : List BEv) : List IdEv := collapseAux [] evs
+
+def idEvents (v11 rootReg : Bool) (root : Node) : List IdEv := collapse (root.idEv v11 rootReg true 0)
 
 /-- whole document: the errors raised on the way plus `_validate_references` at the end -/
 def idRun (evs : List IdEv) : List IdErr :=
